@@ -1171,17 +1171,19 @@ impl Apply for Expression {
             Expression::AdHocDirective(x) => Ok(Self::AdHocDirective(Box::new(x.reduce()?))),
 
             // the following ones can be turned into simpler expressions
+            // (what comes back is reduced already: reducing it once more here would double the
+            // work at every level of a nested expression that cannot be folded yet)
             Expression::EvalBuiltIn(x) => match x.reduce()? {
                 BuiltInOp::NoOp(x) => Ok(x),
-                x => Ok(Expression::EvalBuiltIn(Box::new(x.reduce()?))),
+                x => Ok(Expression::EvalBuiltIn(Box::new(x))),
             },
             Expression::EvalCoerce(x) => match x.reduce()? {
                 Coerce::NoOp(x) => Ok(x),
-                x => Ok(Expression::EvalCoerce(Box::new(x.reduce()?))),
+                x => Ok(Expression::EvalCoerce(Box::new(x))),
             },
             Expression::EvalParam(x) => match x.reduce()? {
                 Param::Set(x) => Ok(x),
-                x => Ok(Expression::EvalParam(Box::new(x.reduce()?))),
+                x => Ok(Expression::EvalParam(Box::new(x))),
             },
 
             // Don't fall into the temptation of simplifying the following cases under a single
